@@ -186,7 +186,7 @@ class Ctx:
             "known_finding_hits": self.n_known,
             "ufl_head": ufl_head(),
         }
-        if write:
+        if write and not os.environ.get("VERIF_NO_EVIDENCE"):  # set by tools/seeded_run.py: runs against a changed tree
             os.makedirs(EVIDENCE, exist_ok=True)
             tmp = os.path.join(EVIDENCE, f".{self.pid}.json.tmp")
             with open(tmp, "w") as f:
